@@ -52,6 +52,7 @@ def run(P, rep, tier):
     rep.attempt(r4_markers, P, rep, ctx)
     rep.attempt(r5_guards, P, rep, ctx)
     rep.attempt(r6_move_copy, P, rep, ctx)
+    rep.attempt(r7_snapshot_before_mutation, P, rep, ctx)
     rep.floor("C01.R1", 7)
     rep.floor("C01.R2", 6)
     rep.floor("C01.R3", 4)
@@ -249,6 +250,12 @@ def r3_create(P, rep, ctx):
     ok = bool(raw_create) and bool(tests) and bool(dels) and all(g.every_path_passes(dels, r, src=t, src_label="T") for t in tests for r in raw_create) and all(g.every_path_passes(tests, r) for r in raw_create)
     rep.check(ok, "C01.R3", fi.qual, "a stale deletion marker at the path is removed before the group is created", fi.loc(), construct="stale marker removal in create_group",
               message="create_group does not remove a deletion marker left at the path in the newest container before creating the group")
+    # nested creation below a missing / deleted ancestor: the first missing ancestor goes through the overlay create_group
+    rec = [n.idx for n in g.nodes if any(call_attr(c) in ("create_group", "_create_virtual") and norm(c.func.value) == "self" for c in g.calls(n.idx))]
+    nest_t = [t.idx for t in g.nodes if t.kind == "test" and norm(t.exprs[0]) in ("len(missing_segs) > 1", "len(missing_segs) >= 2", "len(segs) > 1")]
+    ok = bool(rec) and bool(raw_create) and ((bool(nest_t) and all(g.every_path_passes(rec, r, src=t, src_label="T") for t in nest_t for r in raw_create) and all(g.every_path_passes(nest_t, r) for r in raw_create)) or all(g.every_path_passes(rec, r) for r in raw_create))
+    rep.check(ok, "C01.R3", fi.qual, "for a nested path the first missing ancestor is created through the overlay (marker removal + substitution) before the raw nested create", fi.loc(), construct="nested create_group ancestors",
+              message="create_group hands a nested path with missing ancestors straight to the raw create_group: below an ancestor deleted in the current patch (deletion-marker dataset) this fails, and carriers created implicitly do not shadow older content")
     rets = [norm(x.value) for x in walk_local(fi.node) if isinstance(x, ast.Return)]
     rep.check(rets == ["IH5Group(self._record, path, self._last_idx)"], "C01.R3", fi.qual, "the new group's lower bound is the newest container", fi.loc(), construct="create_group result", message=f"create_group returns {rets}")
     exist = [t for t in g.nodes if t.kind == "test" and norm(t.exprs[0]) == "nodes[-1]._gpath == path"]
@@ -350,3 +357,60 @@ def r6_move_copy(P, rep, ctx):
     fi = P.func(f"{O}.IH5Group.__setitem__")
     rets = [norm(x.value) for x in walk_local(fi.node) if isinstance(x, ast.Return)]
     rep.check(rets == ["self.create_dataset(path, data=value)"], "C01.R6", fi.qual, "group item assignment is create_dataset", fi.loc(), construct="__setitem__", message=f"IH5Group.__setitem__ is {rets}")
+
+
+# ------------------------------------------------------------------------------------------- R7
+WRITE_CALLS = {"create_group", "create_dataset", "require_group", "require_dataset", "__setitem__", "copy", "move"}
+ENUM_CALLS = {"visititems", "visit", "items", "keys", "values"}
+
+
+def _writes_in(node: ast.AST) -> bool:
+    for x in ast.walk(node):
+        if isinstance(x, ast.Call) and call_attr(x) in WRITE_CALLS:
+            return True
+        if isinstance(x, ast.Assign) and any(isinstance(t, ast.Subscript) and not (isinstance(t.value, ast.Name) and t.value.id in ("ret", "out", "res")) for t in x.targets):
+            return True
+    return False
+
+
+def r7_snapshot_before_mutation(P, rep, ctx):
+    """The source of a copy is enumerated completely (snapshot) before anything is created at the destination:
+    the destination may lie inside the source and overlay traversal is lazy."""
+    h = P.func(f"{O}.h5_copy_from_to")
+    g = ctx.cfg(h)
+    lazy = []
+    for f_ in [h] + list(h.nested.values()) + [x for x in P.functions.values() if x.qual == f"{O}._list_children"]:
+        for c in local_calls(f_.node):
+            if call_attr(c) in ENUM_CALLS and isinstance(c.func, ast.Attribute) and norm(c.func.value) == "source_node":
+                cb = c.args[0] if c.args else None
+                body = None
+                if isinstance(cb, ast.Lambda):
+                    body = cb.body
+                elif isinstance(cb, ast.Name):
+                    nf = f_.nested.get(cb.id) or h.nested.get(cb.id)
+                    body = nf.node if nf else None
+                if body is not None and _writes_in(body):
+                    lazy.append(c)
+        for loop in (x for x in walk_local(f_.node) if isinstance(x, ast.For)):
+            it = loop.iter
+            if isinstance(it, ast.Call) and call_attr(it) in ENUM_CALLS and isinstance(it.func, ast.Attribute) and norm(it.func.value) == "source_node" and any(_writes_in(b) for b in loop.body):
+                lazy.append(it)
+    rep.check(not lazy, "C01.R7", h.qual, "the source is never written-to-the-destination while it is being enumerated (snapshot first)", h.loc(lazy[0]) if lazy else h.loc(), construct=f"lazy enumeration with writes: {[norm(c)[:60] for c in lazy]}",
+              message=f"h5_copy_from_to writes into the destination from inside the enumeration of the source ({[norm(c)[:50] for c in lazy]}): when the destination lies inside the source (copy of a group into its own subtree) the freshly created nodes are visited again and the copy never terminates")
+    snap = [n.idx for n in g.nodes if any(norm(c.func) in ("_list_children",) or (call_attr(c) in ENUM_CALLS and isinstance(c.func, ast.Attribute) and norm(c.func.value) == "source_node") for c in g.calls(n.idx))]
+    tgt_create = [n.idx for n in g.nodes if any(call_attr(c) == "create_group" and norm(c.func.value) == "target_group" for c in g.calls(n.idx))]
+    if not tgt_create:
+        raise AnalysisError("C01.R7: creation of the target group not found in h5_copy_from_to")
+    given = [t.idx for t in g.nodes if t.kind == "test" and norm(t.exprs[0]) == "src_children is None"]
+    ok = bool(snap) and all(g.every_path_passes(snap + [t for t in given], tc) for tc in tgt_create) and all(g.every_path_passes(snap, tc, src=t, src_label="T") for t in given for tc in tgt_create)
+    rep.check(ok, "C01.R7", h.qual, "the source's children are listed before the target group is created", h.loc(), construct="snapshot before target creation", message="h5_copy_from_to creates the target group before the source's children are listed: a target inside the source becomes part of the copy")
+    cp = P.func(f"{O}.IH5Group.copy")
+    g = ctx.cfg(cp)
+    snap = [n.idx for n in g.nodes if any(norm(c.func) == "_list_children" and c.args and norm(c.args[0]) == "src_node" for c in g.calls(n.idx))]
+    mk = [n.idx for n in g.nodes if any(call_attr(c) in ("require_group", "create_group") and norm(c.func.value) == "self" for c in g.calls(n.idx))]
+    tests = [t.idx for t in g.nodes if t.kind == "test" and norm(t.exprs[0]) == "not isinstance(src_node, H5DatasetLike)"]
+    ok = bool(snap) and bool(mk) and (all(g.every_path_passes(snap, m) for m in mk) or (bool(tests) and all(g.every_path_passes(snap, m, src=t, src_label="T") for t in tests for m in mk) and all(g.every_path_passes(tests, m) for m in mk)))
+    rep.check(ok, "C01.R7", cp.qual, "a group source is listed before missing destination parent groups are created", cp.loc(), construct="snapshot before require_group in copy",
+              message="IH5Group.copy creates missing destination parents (require_group) before the source group is listed: parents created inside the source are copied along")
+    passes = any(norm(t) == "kwargs['_src_children']" for st in walk_local(cp.node) if isinstance(st, ast.Assign) for t in st.targets) and "kwargs.pop('_src_children', None)" in norm(h.node)
+    rep.check(passes, "C01.R7", cp.qual, "the snapshot taken by copy is the one h5_copy_from_to uses", cp.loc(), construct="snapshot hand-over", message="the snapshot taken in IH5Group.copy is not handed to / used by h5_copy_from_to")
